@@ -8,6 +8,7 @@
 
 #include <cstring>
 #include <iomanip>
+#include <locale>
 
 namespace h
 {
@@ -31,11 +32,44 @@ static std::ostream& operator<<(std::ostream& o, const Dual& d)
     return o << "streamed:" << d.s;
 }
 
+// an enumeration with a stream representation of its own
+enum class Mode
+{
+    manual = 0,
+    automatic = 1,
+    off = 7
+};
+static std::ostream& operator<<(std::ostream& o, Mode m)
+{
+    return o << (m == Mode::manual ? "mode manual" : m == Mode::automatic ? "mode automatic" : "mode off");
+}
+static Mode mode_of(long long i)
+{
+    return i % 3 == 0 ? Mode::manual : i % 3 == 1 || i % 3 == -1 ? Mode::automatic : Mode::off;
+}
+
+// digit grouping like a user's locale would do it (installed as the global locale for some cases)
+struct Grouping : std::numpunct<char>
+{
+    char do_thousands_sep() const override
+    {
+        return '\'';
+    }
+    std::string do_grouping() const override
+    {
+        return "\3";
+    }
+    char do_decimal_point() const override
+    {
+        return ',';
+    }
+};
+
 struct Arg
 {
     int kind = 0; // 0 std::string, 1 long, 2 char, 3 double, 4 const char*, 5 const char[8] (NUL padded),
                   // 6 std::hex, 7 std::boolalpha (stream manipulators: only in exception arguments),
-                  // 8 long double, 9 Dual (converts to one text, streams as another)
+                  // 8 long double, 9 Dual (converts to one text, streams as another), 10 an enum with operator<<
     std::string s;
     long long i = 0;
     int d = 0;
@@ -56,6 +90,7 @@ struct Case
     std::vector<Arg> args;
     int supply = 0; // 0 operator%, 1 args(...), 2 mixed: first half %, rest args(...)
     int read = 0;   // 0 str(), 1 conversion to std::string, 2 operator<<, 3 via _nf literal operator
+    int grouping = 0; // 1: the global locale groups digits (1'234'567) and uses a decimal comma
     template <class A>
     void io(A& a)
     {
@@ -64,6 +99,7 @@ struct Case
         a("args", args);
         a("supply", supply);
         a("read", read);
+        a("grouping", grouping);
     }
 };
 
@@ -112,6 +148,8 @@ static std::ostream& operator<<(std::ostream& o, const AnyArg& x)
         return o << LDTAB[x.a->d % NLDTAB];
     case 9:
         return o << Dual{ x.a->s };
+    case 10:
+        return o << mode_of(x.a->i);
     default:
         return o << x.a->s.c_str();
     }
@@ -131,7 +169,11 @@ static std::string render(const Arg& a)
     case 4:
         return a.s;
     case 1:
-        return std::to_string(static_cast<long>(a.i));
+    {
+        std::ostringstream o; // (not std::to_string: the stream representation follows the locale)
+        o << static_cast<long>(a.i);
+        return o.str();
+    }
     case 2:
         return std::string(1, a.s.empty() ? 'c' : a.s[0]);
     case 8:
@@ -142,6 +184,12 @@ static std::string render(const Arg& a)
     }
     case 9:
         return "streamed:" + a.s;
+    case 10:
+    {
+        std::ostringstream o;
+        o << mode_of(a.i);
+        return o.str();
+    }
     default:
     {
         std::ostringstream o;
@@ -201,7 +249,7 @@ static std::size_t count_placeholders(const std::string& f)
 static Arg gen_arg(vf::Src& src)
 {
     Arg a;
-    a.kind = static_cast<int>(src.weighted({ 35, 18, 10, 10, 17, 10, 0, 0, 6, 6 }));
+    a.kind = static_cast<int>(src.weighted({ 35, 18, 10, 10, 17, 10, 0, 0, 6, 6, 5 }));
     a.s = src.coin(80) ? gen_text(src, 3) : src.bytes_nonul(0, 5);
     // now and then a long text (around and beyond 1 KiB)
     if (src.coin(4))
@@ -267,9 +315,11 @@ Case generate(vf::Src& src, const std::string& mode)
             c.args.push_back(gen_arg(src));
         c.supply = src.irange(0, 2);
         c.read = src.irange(0, 3);
+        c.grouping = src.coin(12) ? 1 : 0;
     }
     else
     {
+        c.grouping = src.coin(20) ? 1 : 0;
         int na = src.irange(1, 4);
         for (int i = 0; i < na; ++i)
         {
@@ -301,10 +351,22 @@ static void supply_percent(F& f, const Arg& a)
         break;
     }
     case 0:
-        f % a.s;
+    {
+        // a named variable that is reused right after it was supplied
+        std::string scratch = a.s;
+        f % scratch;
+        scratch.assign(scratch.size() + 3, '!');
         break;
+    }
     case 1:
-        f % static_cast<long>(a.i);
+    {
+        long scratch = static_cast<long>(a.i);
+        f % scratch;
+        scratch = -777;
+        break;
+    }
+    case 10:
+        f % mode_of(a.i);
         break;
     case 2:
         f % static_cast<char>(a.s.empty() ? 'c' : a.s[0]);
@@ -369,6 +431,10 @@ static std::string raise_what(const std::vector<Arg>& v, bool& caught)
                 nitro::raise<E>(LDTAB[p->d % NLDTAB]);
             if (p->kind == 0)
                 nitro::raise<E>(p->s);
+            if (p->kind == 10)
+                nitro::raise<E>(mode_of(p->i));
+            if (p->kind == 1)
+                nitro::raise<E>(static_cast<long>(p->i));
             nitro::raise<E>(AnyArg{ p });
         case 2:
             nitro::raise<E>(AnyArg{ p }, AnyArg{ p + 1 });
@@ -386,7 +452,33 @@ static std::string raise_what(const std::vector<Arg>& v, bool& caught)
     return "";
 }
 
+static std::string check_inner(const Case& c, vf::Ctx& ctx);
+
 std::string check(const Case& c, vf::Ctx& ctx)
+{
+    if (!c.grouping)
+        return check_inner(c, ctx);
+    // the stream representation of a number is whatever the program's locale makes of it: the
+    // reference streams and the library's see the same global locale
+    ctx.tag("locale:digit-grouping");
+    std::locale before = std::locale::global(std::locale(std::locale::classic(), new Grouping));
+    std::string m;
+    try
+    {
+        m = check_inner(c, ctx);
+    }
+    catch (...)
+    {
+        std::locale::global(before);
+        throw;
+    }
+    std::locale::global(before);
+    if (!m.empty())
+        m += " [global locale with digit grouping]";
+    return m;
+}
+
+static std::string check_inner(const Case& c, vf::Ctx& ctx)
 {
     if (c.what != 0)
     {
